@@ -90,8 +90,9 @@ Qed.
 Section Fds.
 Variable file_of : N -> N.          (* height -> blk file number, from the index *)
 Variable maxh : N -> N.             (* max_height_by_blk *)
-Hypothesis maxh_ok : forall h, h <= maxh (file_of h).                          (* it bounds every height stored in the file *)
-Hypothesis maxh_attained : forall h, file_of (maxh (file_of h)) = file_of h.    (* and is itself stored there *)
+Variable dom : N -> Prop.           (* the heights the run processes *)
+Hypothesis maxh_ok : forall h, dom h -> h <= maxh (file_of h).                        (* it bounds every processed height stored in the file *)
+Hypothesis maxh_attained : forall h' h, dom h' -> dom h -> maxh (file_of h') = h -> file_of h = file_of h'.   (* a processed height equal to a file's maximum is stored in that file *)
 
 Definition openset := list N.
 Definition add (f:N) (o:openset) : openset := if existsb (N.eqb f) o then o else f :: o.
@@ -103,17 +104,18 @@ Fixpoint visits (o:openset) (s:N) (n:nat) : openset :=
   match n with O => o | S n' => visits (visit o s) (s + 1) n' end.
 
 (* every open file still holds a block of a height yet to come *)
-Definition inv (o:openset) (next:N) : Prop := forall f, In f o -> (exists h', f = file_of h') /\ next <= maxh f.
+Definition inv (o:openset) (next:N) : Prop := forall f, In f o -> (exists h', dom h' /\ f = file_of h') /\ next <= maxh f.
 
-Lemma visit_inv o h : inv o h -> inv (visit o h) (h + 1).
+Lemma visit_inv o h : dom h -> inv o h -> inv (visit o h) (h + 1).
 Proof.
-  intros Hi f Hin. unfold visit in Hin.
+  intros Hd Hi f Hin. unfold visit in Hin.
   assert (Hadd : forall g, In g (add (file_of h) o) -> g = file_of h \/ In g o).
   { intros g Hg. unfold add in Hg. destruct (existsb (N.eqb (file_of h)) o); [now right|]. destruct Hg; [left; congruence|now right]. }
-  assert (Hother : forall g, In g o -> g <> file_of h -> (exists h', g = file_of h') /\ h + 1 <= maxh g).
-  { intros g Hg Hne. destruct (Hi g Hg) as [[h' ->] Hle]. split; [eauto|].
+  assert (Hother : forall g, In g o -> g <> file_of h -> (exists h', dom h' /\ g = file_of h') /\ h + 1 <= maxh g).
+  { intros g Hg Hne. destruct (Hi g Hg) as [[h' [Hd' ->]] Hle]. split; [eauto|].
     destruct (N.eq_dec (maxh (file_of h')) h) as [Heq|]; [|lia].
-    exfalso. apply Hne. rewrite <- (maxh_attained h'), Heq. reflexivity. }
+    exfalso. apply Hne. symmetry. now apply (maxh_attained h' h). }
+  pose proof (maxh_ok h Hd) as Hok.
   destruct (N.leb_spec (maxh (file_of h)) h) as [Hclose|Hkeep].
   - unfold del in Hin. apply filter_In in Hin as [Hin Hne]. destruct (N.eqb_spec f (file_of h)); [discriminate|].
     destruct (Hadd f Hin) as [->|Hold]; [congruence|]. now apply Hother.
@@ -122,15 +124,17 @@ Proof.
 Qed.
 
 (* C17: for every layout (file_of arbitrary) and every start height, after delivering s .. s+n-1 the open files all contain a later block *)
-Theorem open_invariant : forall n s o, inv o s -> inv (visits o s n) (s + N.of_nat n).
+Theorem open_invariant : forall n s o, (forall i, (i < n)%nat -> dom (s + N.of_nat i)) -> inv o s -> inv (visits o s n) (s + N.of_nat n).
 Proof.
-  induction n as [|n IH]; intros s o Hi.
+  induction n as [|n IH]; intros s o Hd Hi.
   - cbn. replace (s + 0) with s by lia. exact Hi.
-  - cbn [visits]. replace (s + N.of_nat (S n)) with (s + 1 + N.of_nat n) by lia. apply IH. now apply visit_inv.
+  - cbn [visits]. replace (s + N.of_nat (S n)) with (s + 1 + N.of_nat n) by lia. apply IH.
+    + intros i Hi'. replace (s + 1 + N.of_nat i) with (s + N.of_nat (S i)) by lia. apply Hd. lia.
+    + apply visit_inv; [|exact Hi]. replace s with (s + N.of_nat 0) by lia. apply Hd. lia.
 Qed.
 
-Corollary open_span : forall n s f, In f (visits [] s n) -> (exists h', f = file_of h') /\ s + N.of_nat n <= maxh f.
-Proof. intros n s f Hin. apply (open_invariant n s []); [intros g []|exact Hin]. Qed.
+Corollary open_span : forall n s f, (forall i, (i < n)%nat -> dom (s + N.of_nat i)) -> In f (visits [] s n) -> (exists h', dom h' /\ f = file_of h') /\ s + N.of_nat n <= maxh f.
+Proof. intros n s f Hd Hin. apply (open_invariant n s [] Hd); [intros g []|exact Hin]. Qed.
 
 (* no file is listed twice in the open set *)
 Lemma add_nodup f o : NoDup o -> NoDup (add f o).
@@ -146,36 +150,38 @@ Proof.
   destruct (maxh (file_of s) <=? s); [apply del_nodup|]; now apply add_nodup.
 Qed.
 
-(* files with pairwise disjoint height spans (file f holds exactly the heights lo f .. maxh f of the processed range): at most one open *)
+(* files with pairwise disjoint height spans (file f holds processed heights only inside lo f .. maxh f): at most one open *)
 Variable lo : N -> N.
-Hypothesis span : forall h, lo (file_of h) <= h.
-Hypothesis disjoint : forall h h', file_of h <> file_of h' -> maxh (file_of h) < lo (file_of h') \/ maxh (file_of h') < lo (file_of h).
-Lemma opened_lo : forall n s o, (forall y, In y o -> exists h', y = file_of h' /\ lo y <= s) ->
-  forall y, In y (visits o s n) -> exists h', y = file_of h' /\ lo y <= s + N.of_nat n.
+Hypothesis span : forall h, dom h -> lo (file_of h) <= h.
+Hypothesis disjoint : forall h h', dom h -> dom h' -> file_of h <> file_of h' -> maxh (file_of h) < lo (file_of h') \/ maxh (file_of h') < lo (file_of h).
+Lemma opened_lo : forall n s o, (forall i, (i < n)%nat -> dom (s + N.of_nat i)) -> (forall y, In y o -> exists h', dom h' /\ y = file_of h' /\ lo y <= s) ->
+  forall y, In y (visits o s n) -> exists h', dom h' /\ y = file_of h' /\ lo y <= s + N.of_nat n.
 Proof.
-  induction n as [|n IH]; intros s o Ho y Hy.
-  - cbn in Hy. destruct (Ho y Hy) as (h' & -> & Hl). exists h'. split; [reflexivity|lia].
-  - cbn [visits] in Hy. replace (s + N.of_nat (S n)) with (s + 1 + N.of_nat n) by lia. apply (IH (s + 1) (visit o s)); [|exact Hy].
-    intros z Hz. unfold visit in Hz.
-    assert (Hz' : In z (add (file_of s) o)).
-    { destruct (maxh (file_of s) <=? s); [unfold del in Hz; apply filter_In in Hz; tauto|exact Hz]. }
-    unfold add in Hz'. destruct (existsb (N.eqb (file_of s)) o).
-    + destruct (Ho z Hz') as (h' & -> & Hl). exists h'. split; [reflexivity|lia].
-    + destruct Hz' as [<-|Hz'].
-      * exists s. split; [reflexivity|]. specialize (span s). lia.
-      * destruct (Ho z Hz') as (h' & -> & Hl). exists h'. split; [reflexivity|lia].
+  induction n as [|n IH]; intros s o Hd Ho y Hy.
+  - cbn in Hy. destruct (Ho y Hy) as (h' & Hd' & -> & Hl). exists h'. repeat split; [exact Hd'|lia].
+  - cbn [visits] in Hy. replace (s + N.of_nat (S n)) with (s + 1 + N.of_nat n) by lia. apply (IH (s + 1) (visit o s)); [| |exact Hy].
+    + intros i Hi'. replace (s + 1 + N.of_nat i) with (s + N.of_nat (S i)) by lia. apply Hd. lia.
+    + assert (Hds : dom s) by (replace s with (s + N.of_nat 0) by lia; apply Hd; lia).
+      intros z Hz. unfold visit in Hz.
+      assert (Hz' : In z (add (file_of s) o)).
+      { destruct (maxh (file_of s) <=? s); [unfold del in Hz; apply filter_In in Hz; tauto|exact Hz]. }
+      unfold add in Hz'. destruct (existsb (N.eqb (file_of s)) o).
+      * destruct (Ho z Hz') as (h' & Hd' & -> & Hl). exists h'. repeat split; [exact Hd'|lia].
+      * destruct Hz' as [<-|Hz'].
+        -- exists s. repeat split; [exact Hds|]. specialize (span s Hds). lia.
+        -- destruct (Ho z Hz') as (h' & Hd' & -> & Hl). exists h'. repeat split; [exact Hd'|lia].
 Qed.
-Theorem disjoint_spans_one_open : forall n s, (length (visits [] s n) <= 1)%nat.
+Theorem disjoint_spans_one_open : forall n s, (forall i, (i < n)%nat -> dom (s + N.of_nat i)) -> (length (visits [] s n) <= 1)%nat.
 Proof.
-  intros n s. pose proof (visits_nodup n s [] (NoDup_nil _)) as Hnd.
+  intros n s Hd. pose proof (visits_nodup n s [] (NoDup_nil _)) as Hnd.
   destruct (visits [] s n) as [|f [|g r]] eqn:E; cbn; try lia. exfalso.
   assert (Hf : In f (visits [] s n)) by (rewrite E; now left).
   assert (Hg : In g (visits [] s n)) by (rewrite E; right; now left).
-  assert (Hopen : forall x, In x (visits [] s n) -> exists h', x = file_of h' /\ lo x <= s + N.of_nat n <= maxh x).
-  { intros x Hx. destruct (opened_lo n s [] (fun y (H:In y []) => match H with end) x Hx) as (h' & -> & Hl).
-    destruct (open_span n s _ Hx) as [_ Hm]. exists h'. split; [reflexivity|lia]. }
-  destruct (Hopen f Hf) as (hf & -> & Hsf). destruct (Hopen g Hg) as (hg & -> & Hsg).
+  assert (Hopen : forall x, In x (visits [] s n) -> exists h', dom h' /\ x = file_of h' /\ lo x <= s + N.of_nat n <= maxh x).
+  { intros x Hx. destruct (opened_lo n s [] Hd (fun y (H:In y []) => match H with end) x Hx) as (h' & Hd' & -> & Hl).
+    destruct (open_span n s _ Hd Hx) as [_ Hm]. exists h'. repeat split; [exact Hd'|lia|lia]. }
+  destruct (Hopen f Hf) as (hf & Hdf & -> & Hsf). destruct (Hopen g Hg) as (hg & Hdg & -> & Hsg).
   inversion Hnd as [|? ? Hnin _]; subst. assert (Hne : file_of hf <> file_of hg) by (intro Heq; apply Hnin; rewrite Heq; now left).
-  destruct (disjoint hf hg Hne); lia.
+  destruct (disjoint hf hg Hdf Hdg Hne); lia.
 Qed.
 End Fds.
